@@ -179,6 +179,17 @@ def _check_guard_table(run, Q, guards, cases, parser, hyp, mod, node,
                         a[1] in ("key.step", "bool(key.step)") or
                         a[1].startswith("value has a bit in lanes") or
                         " >= 2**(" in a[1]):
+                    import re as _re
+                    if _re.match(r"^[\w.]+ > \(?(1 << |2 \*\* )", a[1]):
+                        # `x > 2**n` rejects from 2**n + 1 on: the value
+                        # 2**n itself (n + 1 bits) passes the fit test
+                        run.ob("R-FRAME-LANES", Q + "#rejects-exactly",
+                               False,
+                               "the fit test `%s` lets the value 2**n "
+                               "through, which needs n + 1 bits: the "
+                               "documented test is `>= 2**n` (bit_length "
+                               "> n)" % a[1], where(mod, st))
+                        return
                     raise AnalysisError(
                         "%s: guard `%s` uses a test outside the recognised "
                         "vocabulary (%s)" % (Q, unparse(st.test, 100), a[1]))
